@@ -5,6 +5,7 @@ import (
 	"encoding/json"
 	"flag"
 	"fmt"
+	"golang.org/x/tools/go/ssa"
 	"os"
 	"path/filepath"
 	"sort"
@@ -39,6 +40,7 @@ type RunCfg struct {
 	Expect   []string          `json:"expect_reach"`
 	TimeoutS int               `json:"timeout_s"`
 	QueryMs  int               `json:"query_ms"`
+	Stubs    map[string]string `json:"stubs"`
 }
 
 type KnownFinding struct {
@@ -219,7 +221,7 @@ func Main(args []string) int {
 			opts := Options{RepoDir: *repo, Pkg: rc.Pkg, Overlay: overlay, Tags: append([]string{"verif"}, rc.Tags...),
 				Harness: rc.Fn, Mode: rc.Mode, Workers: *workers, Unwind: rc.Unwind, MaxSteps: rc.MaxSteps,
 				KeepSamples: 3, KnownOpen: openIDs, Params: params, MapOrderReverse: rev, MaxPaths: *maxPaths,
-				CrossCheck: *tier == "thorough", QueryTimeoutMs: rc.QueryMs}
+				CrossCheck: *tier == "thorough", QueryTimeoutMs: rc.QueryMs, Stubs: rc.Stubs}
 			if *tier == "thorough" && opts.QueryTimeoutMs == 0 {
 				opts.QueryTimeoutMs = 120000
 			}
@@ -239,6 +241,8 @@ func Main(args []string) int {
 				worlds[key] = w
 			} else {
 				w.Opts = opts
+				w.registerIntrinsics()
+				w.fnNames = map[*ssa.Function]*fnMeta{}
 				w.Opts.Workers = w.Opts.Workers
 				if w.Opts.Workers <= 0 {
 					w.Opts.Workers = 16
